@@ -328,7 +328,8 @@ class Crate:
         for m in self.order:
             imp = set()
             for d in self.mods[m]:
-                imp |= imports_of(d)
+                if not d.get("skip"):
+                    imp |= imports_of(d)
             out.append("/// module %s" % m)
             out.append("pub mod %s {" % m)
             out.append("    #[allow(unused_imports)]")
@@ -337,6 +338,10 @@ class Crate:
                 out.append("    #[allow(unused_imports)]")
                 out.append("    use arbitrary_int::{%s};" % ", ".join(sorted(imp, key=lambda x: int(x[1:]))))
             for d in self.mods[m]:
+                if d.get("skip"):
+                    d["line0"] = d["line1"] = -1
+                    decls.append(d)
+                    continue
                 if d["kind"] == "struct":
                     lines = render_struct(d)
                 elif d["kind"] == "enum":
@@ -348,8 +353,12 @@ class Crate:
                     out.append("    " + l)
                 d["line1"] = len(out)
                 for c in d.get("consts", []):
+                    if c.get("skip"):
+                        c["line"] = -1
+                        continue
                     out.append("    /// const witness")
                     out.append("    pub const %s: %s = %s;" % (c["name"], c["ty"], c["expr"]))
+                    c["line"] = len(out)
                 for extra in d.get("post", []):
                     out.append("    " + extra)
                 decls.append(d)
